@@ -367,6 +367,13 @@ def afterScan (c : List Nat) (e : Nat) (neg : Bool) (start : Nat) (fractionOnly 
     else if !isReal ∧ num ≤ 0x8000000000000000 then some ⟨.integer, (2 ^ 64 - num) % 2 ^ 64, off⟩
     else finishReal c e neg num off tmp start fractionOnly s.hasDot s.dotOff
 
+/-- continue after the windowed scan unless it already returned -/
+def thenScan (r : Option (Res ⊕ Scan)) (k : Scan → Option Res) : Option Res :=
+  match r with
+  | none => none
+  | some (.inl r) => some r
+  | some (.inr s) => k s
+
 /-- 246-307: the first unit after the sign, then the scan. `off` = offset after the sign. -/
 def afterSign (c : List Nat) (e : Nat) (neg : Bool) (off : Nat) : Option Res :=
   if off < e then
@@ -374,10 +381,7 @@ def afterSign (c : List Nat) (e : Nat) (neg : Bool) (off : Nat) : Option Res :=
     | none => none
     | some d =>
       if isNonZeroDigit d then
-        match iter1 c e (windowEnd e off) (d - 48) (off + 1) d false 0 false with
-        | none => none
-        | some (.inl r) => some r
-        | some (.inr s) => afterScan c e neg off false s
+        thenScan (iter1 c e (windowEnd e off) (d - 48) (off + 1) d false 0 false) (afterScan c e neg off false)
       else if d = 48 ∨ d = 46 then
         -- `(digit == '0') && (offset + 1) < end_offset`: look at the unit after a leading zero
         let step : Option (Res ⊕ (Nat × Nat)) :=
@@ -403,16 +407,10 @@ def afterSign (c : List Nat) (e : Nat) (neg : Bool) (off : Nat) : Option Res :=
             | some (off2, dg2) =>
               if off1 + 1 = off2 ∧ off1 = off ∧ !isDigit dg2 then some ⟨.notANumber, 0, off2⟩   -- just a dot
               else
-                match iter1 c e (windowEnd e off2) 0 off2 dg2 true off1 true with
-                | none => none
-                | some (.inl r) => some r
-                | some (.inr s) => afterScan c e neg off2 true s
+                thenScan (iter1 c e (windowEnd e off2) 0 off2 dg2 true off1 true) (afterScan c e neg off2 true)
           else
             -- `start_offset` keeps its initial value 0 on this path
-            match iter1 c e (windowEnd e off1) 0 off1 dg false 0 false with
-            | none => none
-            | some (.inl r) => some r
-            | some (.inr s) => afterScan c e neg 0 false s
+            thenScan (iter1 c e (windowEnd e off1) 0 off1 dg false 0 false) (afterScan c e neg 0 false)
       else some ⟨.notANumber, 0, off⟩
   else some ⟨.notANumber, 0, off⟩
 
